@@ -72,8 +72,16 @@ int ops_codec(char **args, int na)
 	if ((!strcmp(op, "vdec32") || !strcmp(op, "vdec64") || !strcmp(op, "vlenp")) && na >= 2) {
 		uint8_t *d; size_t n; if (unhex(args[1], &d, &n)) return -1;
 		int align = na > 2 ? atoi(args[2]) : 0;
-		uint8_t *p = aligned_buf(n, align, &base); memcpy(p, d, n); free(d);
+		/* optional 4th argument alias<off>: the caller's result object OVERLAPS the encoded bytes (it lives at data + off;
+		 * the prototypes have no restrict and the bytes are read through uint8_t, so this is a legal call) */
+		long alias = (na > 3 && !strncmp(args[3], "alias", 5)) ? atol(args[3] + 5) : -1;
+		uint8_t *p = aligned_buf(n + 24, align, &base); memcpy(p, d, n); free(d);
 		if (!strcmp(op, "vlenp")) { printf("n %u\n", mtbl_varint_length_packed(p, n)); free(base); return 0; }
+		if (alias >= 0 && alias <= (long)n + 8 && ((uintptr_t)(p + alias) & 7) == 0) {
+			if (op[4] == '3') { uint32_t *vp = (uint32_t *)(void *)(p + alias); size_t l = mtbl_varint_decode32(p, vp); uint32_t v; memcpy(&v, vp, 4); printf("val %lu %zu\n", (unsigned long)v, l); }
+			else { uint64_t *vp = (uint64_t *)(void *)(p + alias); size_t l = mtbl_varint_decode64(p, vp); uint64_t v; memcpy(&v, vp, 8); printf("val %lu %zu\n", (unsigned long)v, l); }
+			free(base); return 0;
+		}
 		if (op[4] == '3') { uint32_t v = 0xdeadbeef; size_t l = mtbl_varint_decode32(p, &v); printf("val %lu %zu\n", (unsigned long)v, l); }
 		else { uint64_t v = 0xdeadbeef; size_t l = mtbl_varint_decode64(p, &v); printf("val %lu %zu\n", (unsigned long)v, l); }
 		free(base); return 0;
@@ -181,6 +189,35 @@ int ops_codec(char **args, int na)
 		for (int t = 0; t < nt; t++) { pthread_join(th[t], NULL); if (cx[t].wrong) { wrong += cx[t].wrong; if (first < 0) first = t; } free(cx[t].base); }
 		free(cx);
 		if (wrong) printf("mt wrong=%ld first=thread%d\n", wrong, first); else printf("mt ok calls=%ld\n", calls * nt);
+		return 0;
+	}
+	if (!strcmp(op, "crc.edge") && na == 2) {
+		/* crc.edge <span>: buffers that begin, end or cross a 4 KiB page boundary, at every start within <span> bytes of the
+		 * boundary and every length 0..2*span, and buffers that END at the last byte before an unmapped page (an implementation
+		 * that reads past the buffer dies there); the three entry points against a bytewise reference.
+		 * reply: edge ok n=<buffers> | edge wrong=<k> first=<impl>:start<offset mod 4096>:len<n> */
+		long span = atol(args[1]); if (span < 1 || span > 2048) return -1;
+		uint8_t *m = mmap(NULL, 3 * 4096, PROT_READ | PROT_WRITE, MAP_PRIVATE | MAP_ANONYMOUS, -1, 0);
+		if (m == MAP_FAILED) { puts("edge unavailable"); return 0; }
+		uint64_t x = 0x9E3779B97F4A7C15ull;
+		for (size_t i = 0; i < 2 * 4096; i++) { x ^= x << 13; x ^= x >> 7; x ^= x << 17; m[i] = (uint8_t)(x >> 11); }
+		mprotect(m + 2 * 4096, 4096, PROT_NONE);
+		static uint32_t tab[256]; if (!tab[1]) for (uint32_t i = 0; i < 256; i++) { uint32_t c = i; for (int k = 0; k < 8; k++) c = (c & 1) ? (c >> 1) ^ 0x82F63B78u : c >> 1; tab[i] = c; }
+		int hw = my_crc32c_sse42_supported(); long nbuf = 0, wrong = 0; char first[80] = "";
+		for (int pass = 0; pass < 2; pass++)
+			for (long st = -span; st <= span; st++)
+				for (long n = 0; n <= 2 * span; n++) {
+					const uint8_t *p;
+					if (pass == 0) p = m + 4096 + st;                       /* around the boundary between two mapped pages */
+					else { if (st > 0 || n > span) continue; p = m + 2 * 4096 - n + 0 * st; if (st != 0) continue; }  /* ends at the guard page */
+					uint32_t c = 0xffffffffu; for (long i = 0; i < n; i++) c = tab[(c ^ p[i]) & 0xff] ^ (c >> 8);
+					c ^= 0xffffffffu; nbuf++;
+					uint32_t got[3] = { mtbl_crc32c(p, (size_t)n), my_crc32c_slicing(p, (size_t)n), hw ? my_crc32c_sse42(p, (size_t)n) : c };
+					static const char *nm[3] = { "api", "slicing", "sse42" };
+					for (int k = 0; k < 3; k++) if (got[k] != c) { if (!wrong) snprintf(first, sizeof first, "%s:start%lu:len%ld", nm[k], (unsigned long)((uintptr_t)p & 4095), n); wrong++; }
+				}
+		munmap(m, 3 * 4096);
+		if (wrong) printf("edge wrong=%ld first=%s\n", wrong, first); else printf("edge ok n=%ld\n", nbuf);
 		return 0;
 	}
 	if (!strcmp(op, "crc.cpu")) { puts(my_crc32c_sse42_supported() ? "sse42 1" : "sse42 0"); return 0; }
